@@ -835,3 +835,30 @@ def fs13(P, C):
              "nothing stores into the elements of %s after they were read from the file" % field if not bad else
              "%s (%s) changes elements of %s after fits_read_pix filled them at %s: the table differs from the file it was read from" %
              (f.render(bad[0][0])[:90], bad[0][1], field, f.loc(ri)))
+
+
+def fs15(P, C):
+    """FS-15: a table read from a file without PERIODn keys has period 0 in every dimension."""
+    from . import ts
+    C.rule("FS-15", "the reader obtains `periods` uninitialised from the allocator and reads PERIOD<i> into entry i; where the key is missing (every "
+           "legacy file) the failure branch stores 0 into that entry before it clears the status — otherwise get_period, the writer and "
+           "permuteDimensions carry whatever the allocation held", floor=1)
+    f = [g for g in P.fns("read_fits_core") if g.unit == "driver" and g.cls == ts.CLS][0]
+    reads = [i for i, cal in f.calls() if cal and (f.call_macro(i) or cal["name"]) in ("fits_read_key", "ffgky") and
+             any(ts.root_member(f, a) and ts.root_member(f, a)[0] == "periods" for a in f.args(i))]
+    if not reads:
+        raise core.AnalysisBroken("FS-15: the read of PERIODn into periods[i] was not found")
+    r = reads[0]
+    L = next((a for a in f.ancestors(r) if f.k(a) == "ForStmt"), None)
+    ok = False
+    det = "no failure branch after the read of PERIODn"
+    if L is not None:
+        for x in f.walk(f.nodes[L]["body"]):
+            if f.k(x) == "IfStmt" and f.seq(x) > f.seq(r):
+                t = f.render(f.nodes[x]["cond"]).replace(" ", "")
+                if re.match(r"^\(?\w+!=0\)?$", t):
+                    st_ = [f.render(y).replace("this->", "").replace(" ", "") for y in f.walk(f.nodes[x]["then"]) if ts.assign_parts(f, y)]
+                    zero = any(re.match(r"^\(periods\[\w+\]=0(\.0*)?\)$", s_) for s_ in st_)
+                    ok = zero
+                    det = "the failure branch of the PERIODn read stores %s" % st_
+    C.ob("FS-15", "read_fits_core", "missing-period-is-zero", ok, f.loc(r), det if not ok else "a missing PERIODn key leaves periods[i] = 0")
